@@ -1529,6 +1529,23 @@ class Normalizer:
                 h.body = rec(h.body)
             st.handlers = self._split_handlers(st.handlers, state)
             return [st]
+        if isinstance(st, (ast.Assign, ast.Return)) and isinstance(getattr(st, "value", None), ast.Tuple) \
+                and not any(isinstance(x, ast.Starred) for x in st.value.elts):
+            # N5 inside a display: `return (K, A if C else B)` with only constants before the conditional element -> if C: return (K, A) else: return (K, B)
+            elts = st.value.elts
+            for i_, x in enumerate(elts):
+                if isinstance(x, ast.IfExp) and all(isinstance(y, ast.Constant) for y in elts[:i_]):
+                    def mk2(val, i_=i_):
+                        s2 = copy.copy(st)
+                        s2.value = ast.copy_location(ast.Tuple(elts=[copy.deepcopy(y) for y in elts[:i_]] + [val] + [copy.deepcopy(y) for y in elts[i_ + 1:]], ctx=ast.Load()), st.value)
+                        if isinstance(st, ast.Assign):
+                            s2.targets = copy.deepcopy(st.targets)
+                        return s2
+                    new = ast.copy_location(ast.If(test=x.test, body=[mk2(x.body)], orelse=[mk2(x.orelse)]), st)
+                    ast.fix_missing_locations(new)
+                    return self._stmt(new, modname, cname, stack, state)
+                if not isinstance(x, ast.Constant):
+                    break
         if isinstance(st, (ast.Assign, ast.Return)) and isinstance(getattr(st, "value", None), ast.IfExp):
             # N5: x = A if C else B  ->  if C: x = A else: x = B   (same for return); evaluation order is unchanged
             v = st.value
@@ -1678,7 +1695,7 @@ class Normalizer:
             if nm in binding and nm not in assigned and nm not in aliased and (_is_const(binding[nm]) or _stable_path(binding[nm])):
                 consts_[nm] = binding[nm]
         if consts_:
-            helper.body = [_ConstSub(consts_).visit(s) for s in helper.body]
+            helper.body = _prune_const_ifs([_ConstSub(consts_).visit(s) for s in helper.body])
         body = [_Rename(ren).visit(s) for s in helper.body]
         newbody = []
         rr = _ReturnRewriter(ret)
